@@ -33,6 +33,11 @@ def custom_run(pid, cfg, tier, seed, G):
                 else:
                     violations.append((rp, (r.stdout.strip().splitlines() or [""])[-1], vn))
         cmd = run.get("pre", []) + [exe, "--tier", tier, "--seed", str(seed)] + run.get("args", [])
+        asan_log = os.path.join(outdir, "sanitizer-%s" % vn)
+        for old in glob.glob(asan_log + ".*"):
+            os.unlink(old)
+        if "ASAN_OPTIONS" in run.get("env", {}):
+            run = dict(run, env=dict(run["env"], ASAN_OPTIONS=run["env"]["ASAN_OPTIONS"] + ":log_path=" + asan_log))
         try:
             r = subprocess.run(cmd, stdout=subprocess.PIPE, stderr=subprocess.PIPE, text=True, timeout=cfg.get("timeout_s", {"quick": 600, "thorough": 7200})[tier], env=dict(os.environ, VERIF_TIER=tier, **run.get("env", {})))
         except subprocess.TimeoutExpired:
@@ -43,7 +48,7 @@ def custom_run(pid, cfg, tier, seed, G):
         except Exception:
             # the harness died (sanitizer report / crash): that is a violation of a memory-safety property, reproduced below
             crash = os.path.join(outdir, "%s-crash-seed%d.case" % (vn, seed))
-            open(crash, "w").write("# property=%s variant=%s\n# harness exited with code %d without a summary; rerun: %s\n# stderr tail:\n%s\n" % (pid, vn, r.returncode, " ".join(cmd), "\n".join("# " + l for l in r.stderr.strip().splitlines()[-25:])))
+            open(crash, "w").write("# property=%s variant=%s\n# harness exited with code %d without a summary; rerun: %s\n# stderr tail:\n%s\n" % (pid, vn, r.returncode, " ".join(cmd), "\n".join("# " + l for l in (r.stderr.strip().splitlines() + sum([open(f).read().splitlines()[:30] for f in glob.glob(os.path.join(outdir, "sanitizer-%s.*" % vn))], []))[-40:])))
             rs = [subprocess.run(cmd, stdout=subprocess.PIPE, stderr=subprocess.PIPE, text=True, env=dict(os.environ, VERIF_TIER=tier, **run.get("env", {}))).returncode for _ in range(2)]
             if all(x != 0 for x in rs):
                 violations.append((crash, "harness crashed (exit %d): %s" % (r.returncode, (r.stderr.strip().splitlines() or [""])[-1][:300]), vn))
